@@ -7,6 +7,8 @@ CONSTANTS
   LensKind = "one"
   WithReload = TRUE
   ReloadBumpsVersion = TRUE
+  WithHideKeep = FALSE
+  Follow = FALSE
   WithScroll = FALSE
   DelayedSetsVersion <- TreeDelayedSetsVersion
 SPECIFICATION Spec
